@@ -343,8 +343,8 @@ func runC10(args []string) error {
 		}
 		lg.Emit(tracelog.M{"ev": "p1layout", "kinds": l.Kinds, "comment": l.Comment, "uni": l.Uni, "bad": l.Bad, "vols": l.Vols, "nsaved": l.NSaved,
 			"expect_ok": l.ExpectOK,
-			"verify": tracelog.M{"err": vo.Err, "errtext": vo.ErrText + vo.Panic, "usable": vo.Usable, "unusable": vo.Unusable, "pusable": vo.PUsable},
-			"repair": tracelog.M{"err": ro.Err, "errtext": ro.ErrText + ro.Panic, "repaired": ro.Repaired}, "restored": restored, "outside": outside,
+			"verify":    tracelog.M{"err": vo.Err, "errtext": vo.ErrText + vo.Panic, "usable": vo.Usable, "unusable": vo.Unusable, "pusable": vo.PUsable},
+			"repair":    tracelog.M{"err": ro.Err, "errtext": ro.ErrText + ro.Panic, "repaired": ro.Repaired}, "restored": restored, "outside": outside,
 			"changed_ok": changedOK})
 		os.RemoveAll(dir)
 	}
